@@ -800,6 +800,7 @@ def run(ctx: Ctx) -> Outcome:
             shutil.rmtree(path.parent.parent, ignore_errors=True)
     directed_limits(ctx, out, capellambse, cases)
     tree_edit_cases(ctx, out, cases)
+    xml_ns.gen_witnesses(ctx, out, cases)  # the witnesses of the namespace theorems, replayed on the implementation
 
     if os.environ.get("VERIF_NO_MODEL") != "1":
         answers = c01.run_model([c[0] for c in cases])
